@@ -4,6 +4,7 @@ From AV Require Import Base.ITree Model.D00 Model.D01 Model.D04 Model.D06 Model.
 From AV Require Import Base.ITree Model.D00 Model.D01.
 From AV Require Import Model.D02.
 From AV Require Import Model.D03.
+From AV Require Import Model.D19.
 Import ListNotations.
 
 Definition dispatch (prop op : nat) (t : itree) : itree :=
@@ -15,5 +16,6 @@ Definition dispatch (prop op : nat) (t : itree) : itree :=
   | 7 => d07 op t
   | 2 => d02 op t
   | 3 => d03 op t
+  | 19 => d19 op t
   | _ => bad_input
   end.
